@@ -40,6 +40,8 @@ const (
 	c17Unmember
 	c17AddVrf
 	c17DelVrf
+	c17VPN2Announce // a second VPN source announces the same (RD, prefix) with a longer AS_PATH
+	c17VPN2Withdraw
 	c17Ops
 )
 
@@ -90,14 +92,12 @@ func drawC17(t *rapid.T) c17Case {
 	n := rapid.IntRange(3, 30).Draw(t, "nops")
 	for i := 0; i < n; i++ {
 		l := fmt.Sprintf("o%d", i)
-		op := c17Op{Kind: rapid.SampledFrom([]int{c17VPNAnnounce, c17VPNAnnounce, c17VPNAnnounce, c17VPNWithdraw, c17CEAnnounce, c17CEAnnounce, c17CEWithdraw, c17Member, c17Member, c17Unmember, c17AddVrf, c17DelVrf}).Draw(t, l+"k"),
+		op := c17Op{Kind: rapid.SampledFrom([]int{c17VPNAnnounce, c17VPNAnnounce, c17VPNAnnounce, c17VPNWithdraw, c17VPNWithdraw, c17CEAnnounce, c17CEAnnounce, c17CEWithdraw, c17Member, c17Member, c17Unmember, c17AddVrf, c17DelVrf, c17VPN2Announce, c17VPN2Announce, c17VPN2Withdraw}).Draw(t, l+"k"),
 			A: rapid.IntRange(0, 3).Draw(t, l+"a"), RD: rapid.IntRange(0, 1).Draw(t, l+"rd"), Origin: rapid.IntRange(0, 1).Draw(t, l+"orig"), CE: rapid.IntRange(0, 1).Draw(t, l+"ce")}
-		if op.Kind == c17VPNAnnounce {
-			m := rapid.IntRange(0, (1<<c17NRT)-1).Draw(t, l+"rts")
-			for j := 0; j < c17NRT; j++ {
-				if m&(1<<j) != 0 {
-					op.RTs = append(op.RTs, j)
-				}
+		if op.Kind == c17VPNAnnounce || op.Kind == c17VPN2Announce {
+			// a list, not a set: a target may be repeated
+			for j, n := 0, rapid.IntRange(0, 4).Draw(t, l+"nrts"); j < n; j++ {
+				op.RTs = append(op.RTs, rapid.IntRange(0, c17NRT-1).Draw(t, fmt.Sprintf("%srt%d", l, j)))
 			}
 		}
 		if op.Kind == c17Member || op.Kind == c17Unmember {
@@ -119,6 +119,10 @@ type c17Run struct {
 	c      *c17Case
 	n      *simNet
 	p, q   rsPeer
+	p2     rsPeer
+	sp2    *simSess
+	vp2    *c17View
+	vpn2   map[string]c17Route // the second source's announcements
 	ce     [2]rsPeer
 	sp, sq *simSess
 	sce    [2]*simSess
@@ -161,6 +165,7 @@ func (v *c17View) feed(rx []simMsg) {
 			}
 		}
 		sort.Strings(rts)
+		rts = c10UniqSorted(rts) // a repeated target is passed on as received; the set is what matters
 		for _, a := range u.PathAttributes {
 			switch mp := a.(type) {
 			case *bgp.PathAttributeMpUnreachNLRI:
@@ -229,6 +234,9 @@ func c17VpnPeer(p *rsPeer, rtc bool) *api.Peer {
 
 func (r *c17Run) global() map[string]c17Route {
 	g := map[string]c17Route{}
+	for k, v := range r.vpn2 {
+		g[k] = v // (P's announcement of the same key, with the shorter AS_PATH, wins below)
+	}
 	for k, v := range r.vpn {
 		g[k] = v
 	}
@@ -271,8 +279,20 @@ func (r *c17Run) verify(step string) *verifkit.Failure {
 		}
 		got := map[string]bool{}
 		err := r.n.s.ListPath(apiutil.ListPathRequest{TableType: api.TableType_TABLE_TYPE_VRF, Name: fmt.Sprintf("v%d", vi), Family: bgp.RF_IPv4_UC}, func(prefix bgp.NLRI, paths []*apiutil.Path) {
-			if len(paths) != 1 {
-				got[fmt.Sprintf("%s x%d", prefix, len(paths))] = true
+			// one path per source that announces the destination (both carry the same targets)
+			n := 0
+			for _, st := range []map[string]c17Route{r.vpn, r.vpn2} {
+				for _, rt := range st {
+					if rt.rd+":"+rt.prefix == prefix.String() {
+						n++
+					}
+				}
+			}
+			if n == 0 {
+				n = 1 // a CE route
+			}
+			if len(paths) != n {
+				got[fmt.Sprintf("%s x%d (expected x%d)", prefix, len(paths), n)] = true
 				return
 			}
 			got[prefix.String()] = true
@@ -353,13 +373,22 @@ func (r *c17Run) verify(step string) *verifkit.Failure {
 		sort.Strings(l)
 		return strings.Join(l, ",")
 	}
-	wantP := map[string]string{}
+	wantP, wantP2 := map[string]string{}, map[string]string{}
 	for k, rt := range g {
-		if rt.fromCE >= 0 {
+		switch rt.fromCE {
+		case -1: // P's own: goes to the second source
+			wantP2[k] = rtString(rt.rts)
+		case -2: // the second source's: goes to P
 			wantP[k] = rtString(rt.rts)
+		default:
+			wantP[k] = rtString(rt.rts)
+			wantP2[k] = rtString(rt.rts)
 		}
 	}
 	if f := check("P", r.sp, r.vp, wantP); f != nil {
+		return f
+	}
+	if f := check("P2", r.sp2, r.vp2, wantP2); f != nil {
 		return f
 	}
 	// ---- Q: filtered by its memberships ----
@@ -401,19 +430,24 @@ func c17Keys(m map[int]bool) []int {
 func (r *c17Run) apply(op c17Op) *verifkit.Failure {
 	ctx := context.Background()
 	switch op.Kind {
-	case c17VPNAnnounce, c17VPNWithdraw:
-		op.A %= 2 // P's prefixes; the CEs use 2 and 3
+	case c17VPNAnnounce, c17VPNWithdraw, c17VPN2Announce, c17VPN2Withdraw:
+		second := op.Kind == c17VPN2Announce || op.Kind == c17VPN2Withdraw
+		sess, who, store, src, peerAS := r.sp, "P", r.vpn, -1, []uint32{r.p.AS}
+		if second {
+			sess, who, store, src, peerAS = r.sp2, "P2", r.vpn2, -2, []uint32{r.p2.AS, 64999, 64998}
+		}
+		op.A %= 2 // the VPN sources' prefixes; the CEs use 2 and 3
 		if !r.c.FreeRD {
 			op.RD = op.A // one RD per prefix: the VRF export picks no best path across RDs (C17-K1)
 		}
 		rd, _ := bgp.ParseRouteDistinguisher(c17RD(op.RD))
 		nlri, _ := bgp.NewLabeledVPNIPAddrPrefix(c17Prefix(op.A), *bgp.NewMPLSLabelStack(uint32(100 + op.A)), rd)
 		key := c17RD(op.RD) + " " + c17Prefix(op.A).String()
-		if op.Kind == c17VPNWithdraw {
+		if op.Kind == c17VPNWithdraw || op.Kind == c17VPN2Withdraw {
 			mp, _ := bgp.NewPathAttributeMpUnreachNLRI(bgp.RF_IPv4_VPN, []bgp.PathNLRI{{NLRI: nlri}})
-			_ = r.sp.send(bgp.NewBGPUpdateMessage(nil, []bgp.PathAttributeInterface{mp}, nil), nil)
-			delete(r.vpn, key)
-			r.logf("P withdraws %s", key)
+			_ = sess.send(bgp.NewBGPUpdateMessage(nil, []bgp.PathAttributeInterface{mp}, nil), nil)
+			delete(store, key)
+			r.logf("%s withdraws %s", who, key)
 			return nil
 		}
 		var ecs []bgp.ExtendedCommunityInterface
@@ -424,10 +458,24 @@ func (r *c17Run) apply(op c17Op) *verifkit.Failure {
 		}
 		ecs = append(ecs, bgp.NewTwoOctetAsSpecificExtended(bgp.EC_SUBTYPE_ROUTE_ORIGIN, 65001, 9, true))
 		mp, _ := bgp.NewPathAttributeMpReachNLRI(bgp.RF_IPv4_VPN, []bgp.PathNLRI{{NLRI: nlri}}, netip.MustParseAddr("192.0.2.1"))
-		attrs := []bgp.PathAttributeInterface{bgp.NewPathAttributeOrigin(0), bgp.NewPathAttributeAsPath([]bgp.AsPathParamInterface{bgp.NewAs4PathParam(2, []uint32{r.p.AS})}), mp, bgp.NewPathAttributeExtendedCommunities(ecs)}
-		_ = r.sp.send(bgp.NewBGPUpdateMessage(nil, attrs, nil), nil)
-		r.vpn[key] = c17Route{rd: c17RD(op.RD), prefix: c17Prefix(op.A).String(), rts: rts, fromCE: -1}
-		r.logf("P announces %s targets %v", key, op.RTs)
+		attrs := []bgp.PathAttributeInterface{bgp.NewPathAttributeOrigin(0), bgp.NewPathAttributeAsPath([]bgp.AsPathParamInterface{bgp.NewAs4PathParam(2, peerAS)}), mp, bgp.NewPathAttributeExtendedCommunities(ecs)}
+		_ = sess.send(bgp.NewBGPUpdateMessage(nil, attrs, nil), nil)
+		store[key] = c17Route{rd: c17RD(op.RD), prefix: c17Prefix(op.A).String(), rts: rts, fromCE: src}
+		r.logf("%s announces %s targets %v", who, key, op.RTs)
+		// Both sources of one (RD, prefix) carry the same targets: the other one follows suit.
+		// (With different target sets the non-best path can be importable while the best is
+		// not, and the export to CEs / RTC peers follows the best path only — the per-destination
+		// limitation recorded as C17-K1.)
+		other, osess, ostore, osrc, oAS := "P2", r.sp2, r.vpn2, -2, []uint32{r.p2.AS, 64999, 64998}
+		if second {
+			other, osess, ostore, osrc, oAS = "P", r.sp, r.vpn, -1, []uint32{r.p.AS}
+		}
+		if _, has := ostore[key]; has {
+			attrs2 := []bgp.PathAttributeInterface{bgp.NewPathAttributeOrigin(0), bgp.NewPathAttributeAsPath([]bgp.AsPathParamInterface{bgp.NewAs4PathParam(2, oAS)}), mp, bgp.NewPathAttributeExtendedCommunities(ecs)}
+			_ = osess.send(bgp.NewBGPUpdateMessage(nil, attrs2, nil), nil)
+			ostore[key] = c17Route{rd: c17RD(op.RD), prefix: c17Prefix(op.A).String(), rts: rts, fromCE: osrc}
+			r.logf("%s follows with the same targets", other)
+		}
 	case c17CEAnnounce:
 		op.A = 2 + op.CE
 		ce := &r.ce[op.CE]
@@ -495,7 +543,8 @@ func runC17(t *testing.T) func(c c17Case, st *verifkit.Stats) *verifkit.Failure 
 				return verifkit.Failf("start", "%v", err)
 			}
 			defer n.stop()
-			r := &c17Run{c: &c, n: n, vpn: map[string]c17Route{}, member: map[string]bool{}, vp: &c17View{entries: map[string]string{}}, vq: &c17View{entries: map[string]string{}}}
+			r := &c17Run{c: &c, n: n, vpn: map[string]c17Route{}, vpn2: map[string]c17Route{}, member: map[string]bool{}, vp: &c17View{entries: map[string]string{}}, vq: &c17View{entries: map[string]string{}}, vp2: &c17View{entries: map[string]string{}}}
+			r.p2 = rsPeer{Addr: "10.0.0.3", ID: "10.0.0.3", Kind: rsEBGP, AS: 65003}
 			r.ceRt = [2]map[int]bool{{}, {}}
 			r.p = rsPeer{Addr: "10.0.0.1", ID: "10.0.0.1", Kind: rsEBGP, AS: 65001}
 			r.q = rsPeer{Addr: "10.0.0.2", ID: "10.0.0.2", Kind: rsEBGP, AS: 65002}
@@ -511,6 +560,9 @@ func runC17(t *testing.T) func(c c17Case, st *verifkit.Stats) *verifkit.Failure 
 			if err := n.s.AddPeer(ctx, &api.AddPeerRequest{Peer: c17VpnPeer(&r.q, true)}); err != nil {
 				return verifkit.Failf("addpeer", "Q: %v", err)
 			}
+			if err := n.s.AddPeer(ctx, &api.AddPeerRequest{Peer: c17VpnPeer(&r.p2, false)}); err != nil {
+				return verifkit.Failf("addpeer", "P2: %v", err)
+			}
 			for i := range r.ce {
 				ap := rsApiPeer(rsGlobal{}, &r.ce[i])
 				ap.Conf.Vrf = fmt.Sprintf("v%d", i)
@@ -523,6 +575,9 @@ func runC17(t *testing.T) func(c c17Case, st *verifkit.Stats) *verifkit.Failure 
 			vpnSpec := simOpenSpec{Families: []uint32{uint32(bgp.RF_IPv4_VPN)}, RR: true}
 			if r.sp, _, err = n.establish(r.p.def(), vpnSpec); err != nil {
 				return verifkit.Failf("establish", "P: %v", err)
+			}
+			if r.sp2, _, err = n.establish(r.p2.def(), vpnSpec); err != nil {
+				return verifkit.Failf("establish", "P2: %v", err)
 			}
 			rtcSpec := simOpenSpec{Families: []uint32{uint32(bgp.RF_IPv4_VPN), uint32(bgp.RF_RTC_UC)}, RR: true}
 			if r.sq, _, err = n.establish(r.q.def(), rtcSpec); err != nil {
@@ -564,4 +619,14 @@ func runC17(t *testing.T) func(c c17Case, st *verifkit.Stats) *verifkit.Failure 
 
 func TestVerifC17(t *testing.T) {
 	verifkit.Run(t, "C17", drawC17, runC17(t))
+}
+
+func c10UniqSorted(l []string) []string {
+	var out []string
+	for i, x := range l {
+		if i == 0 || x != l[i-1] {
+			out = append(out, x)
+		}
+	}
+	return out
 }
